@@ -107,6 +107,7 @@ func main() {
 		}
 	}
 	var vcs []*VC
+	relevant := map[string]bool{}
 	for _, key := range eng.contracts.Order {
 		c := eng.contracts.Funcs[key]
 		if c.Extern {
@@ -115,7 +116,8 @@ func main() {
 		if len(want) > 0 && !want[key] {
 			continue
 		}
-		if len(wantProps) > 0 {
+		if len(wantProps) > 0 && *tier2 {
+			// generated packages have hundreds of functions: pre-select by the contract's own tags
 			hit := false
 			for p := range c.Props {
 				if wantProps[p] {
@@ -193,6 +195,24 @@ func main() {
 			keepObls = append(keepObls, o)
 		}
 		vc.obls = keepObls
+		// a function is relevant to the requested properties if one of its obligations is, or its contract is
+		rel := len(wantProps) == 0 || len(keepObls) > 0
+		for _, p := range fprops {
+			if wantProps[p] {
+				rel = true
+			}
+		}
+		relevant[vc.fnKey] = rel
+	}
+	{
+		var kept []*FuncReport
+		for _, f := range rep.Funcs {
+			if r, ok := relevant[f.Func]; ok && !r {
+				continue
+			}
+			kept = append(kept, f)
+		}
+		rep.Funcs = kept
 	}
 	rep.Results = solveAll(vcs, wdir, *workers, *timeout, *seed, *keep)
 	for k, c := range eng.contracts.Funcs {
